@@ -60,4 +60,14 @@ CLAIMED = {
   "note": "Differential between entry points of the same serializer plus a model-generated event grammar.",
   "technique": "property-based differential testing between API entry points + model-generated expected event stream",
  },
+ "C13": {
+  "text": "Generated pairs/triples (one semantic edit, respelling only, unrelated, single nodes of all 7 kinds, all pairs of trees <= 3 nodes): deep_equal in both directions == equality of model canonical forms, reflexive, transitive; deep_equal_xpath under two comparators, advanced_deep_equal under generated filters, deep_equal_children, shallow_equal, shallow_equal_ignore_attributes with present/absent/repeated names and string_value each compared with a model computed on the abstract trees.",
+  "note": "Trusted: canonical form and filtered-edge model (props/c13.rs).",
+  "technique": "property-based testing against a canonical-form reference model (metamorphic pairs: respell = equal, one edit = canon decides)",
+ },
+ "C20": {
+  "text": "Each generated document/element is built by parsing a canonical rendering, by fixed::Document/Element::xotify and by stepwise creation in a generated construction order; the three read-backs must equal the abstract document exactly (declaration, attribute and top-level sibling order included), be pairwise deep_equal and serialise byte-identically.",
+  "note": "Trusted: canonical renderer and read-back.",
+  "technique": "property-based differential testing between three construction routes",
+ },
 }
